@@ -28,6 +28,10 @@ import (
 
 // ---- the raw peer: segments in, scripted segments out
 
+type rawItem = fcbor.RawMessage
+
+func unmarshalItem(b rawItem, v any) error { return fcbor.Unmarshal(b, v) }
+
 type rawPeer struct {
 	conn      net.Conn
 	responder bool // the peer answers as the responder (our Connection is the initiator)
@@ -42,6 +46,9 @@ type rawPeer struct {
 	played    atomic.Int32
 	problem   atomic.Value
 	wmu       sync.Mutex
+	// hook, when set, sees every message the library writes (protocol id, message type, items) before the
+	// default treatment; it returns true if it has dealt with the message (life.go: scripted keep-alive replies)
+	hook func(id uint16, typ uint, v []rawItem) bool
 }
 
 func newRawPeer(conn net.Conn, responder bool, pid uint16, reqTypes []uint) *rawPeer {
@@ -83,6 +90,9 @@ func (p *rawPeer) readLoop() {
 			}
 			var typ uint
 			if fcbor.Unmarshal(v[0], &typ) != nil {
+				continue
+			}
+			if p.hook != nil && p.hook(id, typ, v) {
 				continue
 			}
 			switch {
@@ -246,6 +256,18 @@ func message(proto, name string, fx *fixtureBlock) []byte {
 		return enc(txsubmission.NewMsgReplyTxs([]txsubmission.TxBody{{EraId: 6, TxBody: []byte{0x84, 0xa0, 0xa0, 0xf5, 0xf6}}}))
 	case "txsubmission.Done":
 		return enc(txsubmission.NewMsgDone())
+	case "txsubmission.RequestTxIdsBlocking":
+		return enc(txsubmission.NewMsgRequestTxIds(true, 0, 1))
+	case "chainsync.Done":
+		return enc(chainsync.NewMsgDone())
+	case "chainsync.FindIntersect":
+		return enc(chainsync.NewMsgFindIntersect([]pcommon.Point{intersectPoint}))
+	case "chainsync.RequestNext":
+		return enc(chainsync.NewMsgRequestNext())
+	case "blockfetch.ClientDone":
+		return enc(blockfetch.NewMsgClientDone())
+	case "blockfetch.RequestRange":
+		return enc(blockfetch.NewMsgRequestRange(intersectPoint, intersectPoint))
 	}
 	panic("no bytes for message " + proto + "." + name)
 }
@@ -277,10 +299,15 @@ func ntnVersionData(version uint16, magic uint32, initiatorOnly bool) []byte {
 func handshake(conn net.Conn, kind string, magic uint32) (uint16, string) {
 	_ = conn.SetDeadline(time.Now().Add(60 * time.Second))
 	defer conn.SetDeadline(time.Time{})
-	if kind == "ntn-server" {
-		// the peer is the initiator: propose one node-to-node version
-		const v = 14
-		msg := hs.Array(hs.Uint(0), hs.Map(map[uint16][]byte{v: ntnVersionData(v, magic, true)}))
+	if kind == "ntn-server" || kind == "ntc-server" {
+		// the peer is the initiator: propose one node-to-node (node-to-client) version
+		v := uint16(14)
+		data := ntnVersionData(14, magic, true)
+		if kind == "ntc-server" {
+			v = 16 | 0x8000
+			data = ntcVersionData(v, magic)
+		}
+		msg := hs.Array(hs.Uint(0), hs.Map(map[uint16][]byte{v: data}))
 		if err := hs.WriteSegment(conn, 0, false, msg); err != nil {
 			return 0, "writing the proposal: " + err.Error()
 		}
@@ -299,7 +326,7 @@ func handshake(conn net.Conn, kind string, magic uint32) (uint16, string) {
 			var tag, ver uint64
 			_ = fcbor.Unmarshal(m[0], &tag)
 			_ = fcbor.Unmarshal(m[1], &ver)
-			if tag != 1 || ver != v {
+			if tag != 1 || ver != uint64(v) {
 				return 0, fmt.Sprintf("the responder did not accept version %d: %x", v, pl)
 			}
 			return v, ""
